@@ -45,6 +45,8 @@ def check_cache(
     targets = getattr(node, "targets", None)
     if targets is not None:
         identity += f":{[str(t) for t in targets]!r}:{getattr(node, 'fallback', None)!s}"
+        # ... and so is whether a decision may be a list of targets or must be a single one
+        identity += f":{getattr(node, 'multi_target', None)!s}"
     cache_key = compute_cache_key(identity, node.map_inputs_to_params(inputs))
     if not cache_key:
         return "", None
